@@ -208,12 +208,12 @@ def run_twoport(case):
 
 def run_ctor(case):
     point = {'s': sp.Rational(case['s0'])}
-    from lcapy import impedance, admittance
+    from lcapy import LaplaceDomainImpedance, LaplaceDomainAdmittance
     k = getattr(TP, case['kind'] + 'Matrix')
     args = []
     for a, ty in zip(case['args'], case['types']):
         v = sp.Rational(a)
-        args.append(impedance(v) if ty == 'Z' else admittance(v) if ty == 'Y' else v)
+        args.append(LaplaceDomainImpedance(v) if ty == 'Z' else LaplaceDomainAdmittance(v) if ty == 'Y' else v)
     m = getattr(k, case['meth'])(*args)
     return {'mat': mat(m, point), 'cls': type(m).__name__}
 
